@@ -31,6 +31,31 @@ package ring
 //@   ensures  [C10] none: n <= 0 ==> result == nil
 //@   ensures  [C10] ring: n > 0 ==> cycle(result, cyc, n)
 //@   ensures  [C10] inv: linked()
+//@   at after "r := newRing[T]()": ghost cyc[0] = r
+//@   at after "r := newRing[T]()": ghost m = 1
+//@   at after "r.next = elt": ghost cyc[m] = elt
+//@   at after "r.next = elt": ghost m = m + 1
+//@   loop 1: invariant count: n >= 1 && m == old(n) - n + 1 && r == cyc[0]
+//@   loop 1: invariant ring: cycle(r, cyc, m)
+//@   loop 1: invariant inv: linked()
+//@   loop 1: invariant frameNext: forall x *Ring[T] :: {x.next} old(allocated(x)) ==> x.next == old(x.next)
+//@   loop 1: invariant framePrev: forall x *Ring[T] :: {x.prev} old(allocated(x)) ==> x.prev == old(x.prev)
+//@   loop 1: invariant frameVal: forall x *Ring[T] :: {x.Value} old(allocated(x)) ==> x.Value == old(x.Value)
+//@   loop 1: decreases n
+//@
+//@ spec nodeAt(cyc imap[*Ring[T]], n int, k int) *Ring[T] := ite(k == 0 || k == n, cyc[0], cyc[n - k])
+//@
+//@ func Of
+//@   ghostret cyc imap[*Ring[T]]
+//@   requires [C10] linked()
+//@   ensures  [C10] none: len(vs) == 0 ==> result == nil
+//@   ensures  [C10] ring: len(vs) > 0 ==> cycle(result, cyc, len(vs))
+//@   ensures  [C10] vals: forall k int :: {vs[k]} 0 <= k && k < len(vs) ==> nodeAt(cyc, len(vs), k).Value == vs[k]
+//@   ensures  [C10] inv: linked()
+//@   at after "r := New[T](len(vs))": ghost cyc = New_cyc
+//@   loop 1: invariant pos: len(vs) > 0 ==> cur == nodeAt(cyc, len(vs), it1) && cycle(r, cyc, len(vs))
+//@   loop 1: invariant vals: forall k int :: {vs[k]} 0 <= k && k < it1 ==> nodeAt(cyc, len(vs), k).Value == vs[k]
+//@   loop 1: invariant frameVal: forall x *Ring[T] :: {x.Value} old(allocated(x)) ==> x.Value == old(x.Value)
 //@
 //@ func (*Ring).Next
 //@   pure
@@ -65,3 +90,47 @@ package ring
 //@   ensures  [C10] othersPrev: forall x *Ring[T] :: {x.prev} x != r && x != old(r.next) ==> x.prev == old(x.prev)
 //@   ensures  [C10] inv: linked()
 //@   modifies r.next, r.prev, r.prev.next, r.next.prev
+//@
+//@ pred ringSeq(r *Ring[T], seq imap[*Ring[T]], L int) := L >= 1 && seq[0] == r && seq[L - 1].next == seq[0]
+//@+     && (forall k int :: {seq[k]} 0 <= k && k < L ==> seq[k] != nil && allocated(seq[k]))
+//@+     && (forall k int :: {seq[k]} 0 <= k && k < L - 1 ==> seq[k].next == seq[k + 1])
+//@+     && (forall j int, k int :: {seq[j], seq[k]} 0 <= j && j < k && k < L ==> seq[j] != seq[k])
+//@
+//@ func (*Ring).At
+//@   ghost seq imap[*Ring[T]], L int
+//@   requires [C10] linked()
+//@   requires [C10] r != nil ==> ringSeq(r, seq, L)
+//@   ensures  [C10] empty: r == nil ==> result == nil
+//@   ensures  [C10] fwd: r != nil && 0 <= n && n < L ==> result == seq[n]
+//@   ensures  [C10] back: r != nil && 0 < -n && -n < L ==> result == seq[L + n]
+//@   ensures  [C10] beyond: r != nil && (n >= L || -n >= L) ==> result == nil
+//@   loop 1: invariant idx: r != nil && n >= 0 && n <= absn(old(n)) && absn(old(n)) - n < L
+//@   loop 1: invariant pos: cur == ite(old(n) >= 0, seq[absn(old(n)) - n], ite(absn(old(n)) == n, seq[0], seq[L - (absn(old(n)) - n)]))
+//@   loop 1: decreases n
+//@
+//@ spec absn(n int) int := ite(n < 0, -n, n)
+//@
+//@ spec atNode(seq imap[*Ring[T]], L int, n int) *Ring[T] := ite(n >= 0, seq[n], seq[L + n])
+//@
+//@ func (*Ring).Peek
+//@   ghost seq imap[*Ring[T]], L int
+//@   requires [C10] linked()
+//@   requires [C10] r != nil ==> ringSeq(r, seq, L)
+//@   ensures  [C10] none: r == nil || n >= L || -n >= L ==> !result.1 && result.0 == zero
+//@   ensures  [C10] some: r != nil && -L < n && n < L ==> result.1 && result.0 == atNode(seq, L, n).Value
+//@   call At#1: seq = seq, L = L
+//@
+//@ func scan
+//@   ghost seq imap[*Ring[T]], L int
+//@   role f yield
+//@   requires [C10] linked()
+//@   requires [C10] r != nil ==> ringSeq(r, seq, L)
+//@   ensures  [C10] empty: r == nil ==> ncalls(f) == old(ncalls(f))
+//@   ensures  [C10] count: ncalls(f) >= old(ncalls(f)) && (r != nil ==> ncalls(f) > old(ncalls(f)) && ncalls(f) - old(ncalls(f)) <= L)
+//@   ensures  [C10] args: r != nil ==> forall i int :: 0 <= i && i < ncalls(f) - old(ncalls(f)) ==> callarg(f, old(ncalls(f)) + i) == seq[i]
+//@   ensures  [C10] went: forall i int :: 0 <= i && i < ncalls(f) - old(ncalls(f)) - 1 ==> callret(f, old(ncalls(f)) + i)
+//@   ensures  [C10] stopped: r != nil && ncalls(f) - old(ncalls(f)) < L ==> !callret(f, ncalls(f) - 1)
+//@   modifies calls(f)
+//@   loop 1: invariant idx: r != nil && ncalls(f) >= old(ncalls(f)) && ncalls(f) - old(ncalls(f)) < L && cur == seq[ncalls(f) - old(ncalls(f))]
+//@   loop 1: invariant args: forall j int :: {callret(f, j)} {callarg(f, j)} old(ncalls(f)) <= j && j < ncalls(f) ==> callarg(f, j) == seq[j - old(ncalls(f))] && callret(f, j)
+//@   loop 1: invariant shape: linked() && ringSeq(r, seq, L)
